@@ -200,6 +200,7 @@ def depth_of(h):
 
 def run_case(case):
     A.reset()
+    mx.set_recalc(bool(case.get("recalc")))
     m = mx.new_model("M")
     H = {"M": m}
     depth = {}              # label -> number of ItemSpaces at or above the handle (recorded when taken)
@@ -210,6 +211,7 @@ def run_case(case):
     ops = case["ops"]
     for idx, op in enumerate(ops):
         before = {lab: A.is_alive(h) for lab, h in H.items()}
+        impl0 = {lab: id(h._impl) for lab, h in H.items()}
         exc = None
         try:
             out = do_op(m, H, op)
@@ -232,6 +234,11 @@ def run_case(case):
             except BaseException:
                 pass
         through_dead = [l for l in labels_of(op) if l in before and not before[l]]
+        if exc is not None and not through_dead and op["op"] in EDIT_OPS and \
+                not (op["op"] == "delitem" and exc.startswith("KeyError")):     # del of an item that is not there
+            # every edit the generator draws is applicable: an exception means the edit left its work half done
+            fails.append({"step": idx, "kind": "edit-raised",
+                          "detail": "%r raised %s" % ({k: v for k, v in op.items() if k != "dead"}, exc)})
         if through_dead and out not in (["deleted"], ["skipped"]):
             fails.append({"step": idx, "kind": "dead-handle-op",
                           "detail": "%r uses the deleted handle(s) %r and answers %r (%s) instead of DeletedObjectError"
@@ -245,7 +252,10 @@ def run_case(case):
         for lab in op.get("dead", []):
             if lab in H:
                 stats["must_die_checked"] += 1
-                if alive[lab]:
+                # with the recalculation option on, an assignment re-creates the leaf ItemSpaces at once and their
+                # old handles serve the NEW object (interfaces are re-used by design): alive with another implementation
+                recreated = bool(case.get("recalc")) and op["op"] == "setvalue" and id(H[lab]._impl) != impl0[lab]
+                if alive[lab] and not recreated:
                     fails.append({"step": idx, "kind": "survivor",
                                   "detail": "after %r the handle %s (%s) must be dead (contained in / derived from / computed from "
                                             "what was deleted or cleared) but still works" % (
